@@ -47,6 +47,11 @@ CHECKS = {
   text="Model checking with conformance: Guard.tla models add_guard/restore_guard/guarded and exception unwinding through guarded regions and user try blocks; TLC checks the contract on it exhaustively, prints every complete history (enter 0/1, leave, raise at any point, rejected entry, try/catch, ignore switches; length<=6, depth<=3 quick), each history is rendered as a program and run on the real code, and the recorded guard triple (values, flags and object identities) is validated step by step against the spec's actions; restore-on-every-exit-path and conjunction nesting are checked on what the code reported.",
   note="Histories bounded by length/depth (8/4 thorough + simulation to length 14); mismatch in parts of the triple the property does not mention is reported as MODEL-DRIFT, not a violation.",
   design="5/C08"),
+ "C09": dict(
+  technique="TLC evaluation of a TLA+ native-control-flow interpreter (NativeCF.tla, TraceCF.tla Inv_CF) against runs of the block API on the real code, plus TraceCore and TraceShape on the same runs",
+  text="Model checking by trace validation: ~45 structured program texts (if / if-else / if-elif-else, nesting, for over a secret bound with public maximum with/without break and bound check, while with public cap and break, compositions) are rendered as block-API calls and run for every input vector of a small window (both condition typings); TLC interprets the same AST natively and compares all final variables, checks no raise inside the domain and refusal of a bound above the maximum, constraint satisfaction / value==wire of the run, and equality of the constraint system across all inputs of one program.",
+  note="Bounded program family and input window; the renderer harness/cfdriver.py is trusted as an observer. Relies on fix: commits 7b3a3bb, 395c6f5, 8a8c07c (without them no behaviour of this API exists).",
+  design="5/C09"),
 }
 
 NOT_YET = "check not built yet in this round (planned, see DESIGN.md section 5)"
